@@ -1,10 +1,14 @@
 (* C16 — Remote streams deliver exactly the requested window of the filtered log.
-   Statements only; proofs are in Remote/StreamProofs.v (index), Remote/StreamSearchProofs.v (search paging,
-   lookups), Remote/StreamSendProofs.v (send step / window changes).
+   Statements only; proofs are in Remote/StreamProofs.v (incremental index), Remote/StreamSearchProofs.v
+   (search paging, std binary search, lookups), Remote/StreamSendProofs.v (send step, window changes, ids).
    The model (Remote/Stream.v) is generic in the message type [M]; a filter is its truth function
-   (Filter::matches is C11's subject), [match_filters] is modelled.  [part] is PART_CHUNK_SIZE. *)
+   (Filter::matches is C11's subject), [match_filters] is modelled.  [part] is PART_CHUNK_SIZE.
+   The model is the model of the code after the six `fix:` commits listed in known_findings.d/C16.json;
+   the behaviour before each repair is kept in the model as [*_prefix] and the lemmas [C16_before_fix_*]
+   exhibit, for each, a concrete input on which it did not have the property. *)
 From Coq Require Import List NArith Bool Lia.
-From AdltV Require Import Base.Res Base.MachInt Remote.Stream Remote.StreamProofs Exec.C16.
+From AdltV Require Import Base.Res Base.MachInt Remote.Stream Remote.StreamProofs Remote.StreamSearchProofs
+  Remote.StreamSendProofs Exec.C16.
 Import ListNotations.
 Open Scope N_scope.
 
@@ -13,6 +17,7 @@ Section Statements.
   Variable part : N.
   Hypothesis part_pos : 1 <= part.
 
+  (* ---------------------------------------------------------------- the incremental index *)
   (* [sched_run part [] s0 sch]: every way in which parsed messages can become available to the server loop —
      batches of arrivals interleaved with calls of process_stream_new_msgs (offset and slice as
      process_file_context passes them) with any max_chunk_size >= 1 per call, and window-end changes.
@@ -43,9 +48,166 @@ Section Statements.
     (s_last s' = len all \/
      (s_filters_active s' = true /\ s_is_stream s' = false /\ s_to_end s' <= len (s_filtered s'))).
   Proof. exact (all_processed_after_enough_calls part part_pos all c s). Qed.
+
+  (* ---------------------------------------------------------------- the send step *)
+  Variable time_of index_of : M -> N.
+  Variable sort_by_time : bool.
+  Notation run := (@run M part time_of index_of sort_by_time).
+
+  (* [run (server0 n0) ops]: ANY history of arrivals/ticks (OTick new finished), stream / query creations, window
+     changes, stops, searches and lookups.  It never panics, and for every stream [s] that is live after it
+     (with whatever id and window it has by then, i.e. also after every window change) one more call of
+     process_file_context delivers everything that is due: under the current id the client has got exactly the
+     messages at stream positions [start, min(end, n)), each once, in order ([is_window]); the end marker was
+     sent exactly once iff the query is finished, never for a stream; and once all messages are processed the
+     delivered list is that slice of the filtered message sequence [fseq]. *)
+  Theorem C16_window_delivered n0 ops new fin :
+    exists sv1 evs1,
+      run (server0 n0) ops = Ok (sv1, evs1) /\
+      forall s, In s (sv_streams sv1) ->
+        exists sv2 ev s',
+          run (server0 n0) (ops ++ [OTick new fin]) = Ok (sv2, evs1 ++ ev) /\
+          sv_all sv2 = sv_all sv1 ++ new /\
+          s_id s' = s_id s /\ s_to_start s' = s_to_start s /\ s_to_end s' = s_to_end s /\
+          s_filters s' = s_filters s /\ s_filters_active s' = s_filters_active s /\
+          inv (sv_all sv2) s' /\
+          let all := sv_all sv2 in
+          let e := N.max (s_to_start s) (N.min (s_to_end s) (stream_len s' (len all))) in
+          s_sent_end s' = e /\
+          is_window all s' (s_to_start s) e (delivered (s_id s) (evs1 ++ ev)) /\
+          end_markers (s_id s) (evs1 ++ ev) = (if s_is_done s' then 1 else 0) /\
+          s_is_done s' = done_cond fin (len all) s' /\
+          (s_is_done s' = false -> In s' (sv_streams sv2)) /\
+          (s_last s' = len all ->
+             stream_len s' (len all) = len (fseq all s') /\
+             delivered (s_id s) (evs1 ++ ev) = firstN (e - s_to_start s) (skipN (s_to_start s) (fseq all s'))).
+  Proof. exact (window_delivered part part_pos time_of index_of sort_by_time n0 ops new fin). Qed.
+
+  (* a query is finished only when its window is filled or the parser has finished and everything is processed
+     (so its end marker never comes before the messages of the window that the file contains) *)
+  Theorem C16_query_end_only_when_complete fin all_len (s' : sctx M) :
+    done_cond fin all_len s' = true ->
+    s_is_stream s' = false /\ (s_to_end s' <= s_sent_end s' \/ (fin = true /\ all_len <= s_last s')).
+  Proof.
+    unfold done_cond. intros H. apply andb_true_iff in H. destruct H as [H1 H2]. apply negb_true_iff in H2.
+    split; [exact H2|]. apply orb_true_iff in H1. destruct H1 as [H1|H1].
+    - apply andb_true_iff in H1. destruct H1 as [H3 H4]. apply N.leb_le in H4. right. auto.
+    - apply N.leb_le in H1. left. exact H1.
+  Qed.
+
+  (* at every moment of every history: nothing outside the window, nothing twice, nothing out of order *)
+  Theorem C16_window_prefix_always n0 ops :
+    exists sv evs,
+      run (server0 n0) ops = Ok (sv, evs) /\
+      forall s, In s (sv_streams sv) ->
+        s_to_start s <= s_sent_end s /\
+        s_sent_end s <= N.max (s_to_start s) (N.min (s_to_end s) (stream_len s (len (sv_all sv)))) /\
+        is_window (sv_all sv) s (s_to_start s) (s_sent_end s) (delivered (s_id s) evs) /\
+        end_markers (s_id s) evs = 0.
+  Proof. exact (window_prefix_always part part_pos time_of index_of sort_by_time n0 ops). Qed.
+
+  (* no frame carries a stream id before the reply that announced this id (stream / query / stream_change_window) *)
+  Theorem C16_ids_announced_first n0 ops sv evs :
+    run (server0 n0) ops = Ok (sv, evs) -> well_announced [] evs.
+  Proof. exact (ids_announced_first part part_pos time_of index_of sort_by_time n0 ops sv evs). Qed.
+
+  (* ---------------------------------------------------------------- search paging *)
+  (* following next_search_idx from [start]: the pages examine consecutive ranges that partition
+     [start, stream length) ([chain]), each page returns the matching positions of its range, and the union
+     of the pages is exactly the set of matching positions.  For every page size, also 0. *)
+  Theorem C16_search_pages_partition (all : list M) (s : sctx M) (fs : fset M) maxr fuel start :
+    inv all s ->
+    (N.to_nat (stream_len s (len all) - start) < fuel)%nat ->
+    exists pages,
+      search_pages fuel all s start maxr fs = Ok pages /\
+      chain start pages (N.max start (stream_len s (len all))) /\
+      Forall (fun p => fst p = hits all s fs (fst (snd p)) (snd (snd p))) pages /\
+      concat (map fst pages) = hits all s fs start (N.max start (stream_len s (len all))).
+  Proof.
+    intros Hi Hf. exact (search_pages_partition all s fs maxr (inv_stream_ok all s Hi) fuel start Hf).
+  Qed.
+
+  (* ---------------------------------------------------------------- lookups *)
+  (* the algorithm of slice::binary_search_by of the toolchain keeps the documented contract *)
+  Theorem C16_std_bsearch_meets_contract {A} (cmp : A -> comparison) l :
+    partitioned cmp l -> bsearch_valid cmp l (std_bsearch cmp l).
+  Proof. exact (std_bsearch_valid cmp l). Qed.
+
+  (* whichever result the contract of binary_search allows on filtered_msgs: the answer is the position of the
+     first stream message that is not before all_msgs position [ai] *)
+  Theorem C16_stream_pos_first_not_before (all : list M) (s : sctx M) bs ai :
+    inv all s -> keeps_contract bs -> ai <= len all ->
+    let p := stream_pos_with bs s ai in
+    p <= stream_len s (len all) /\
+    (forall q a, q < p -> all_pos all s q = Some a -> a < ai) /\
+    (forall q a, p <= q -> all_pos all s q = Some a -> ai <= a).
+  Proof. intros Hi. exact (stream_pos_first_not_before all s Hi bs ai). Qed.
+
+  (* time lookup on a log ordered by time: the position of the first stream message not before [t] *)
+  Theorem C16_lookup_first_not_before (all : list M) (s : sctx M) t :
+    inv all s -> time_ordered time_of all ->
+    let p := lookup_time time_of all s t in
+    p <= stream_len s (len all) /\
+    (forall q m, q < p -> stream_msg all s q = Ok m -> time_of m < t) /\
+    (forall q m, p <= q -> stream_msg all s q = Ok m -> t <= time_of m).
+  Proof. intros Hi. exact (lookup_time_first_not_before time_of all s Hi t). Qed.
+
+  (* index lookup, file order *)
+  Theorem C16_lookup_index_first_not_before (all : list M) (s : sctx M) idx :
+    inv all s -> index_increasing index_of all ->
+    match lookup_index index_of all s idx with
+    | Some p =>
+        exists ai m, nthN all ai = Some m /\ index_of m = idx /\
+          p <= stream_len s (len all) /\
+          (forall q a, q < p -> all_pos all s q = Some a -> a < ai) /\
+          (forall q a, p <= q -> all_pos all s q = Some a -> ai <= a)
+    | None => forall j m, nthN all j = Some m -> index_of m <> idx
+    end.
+  Proof. intros Hi. exact (lookup_index_first_not_before index_of all s Hi idx). Qed.
+
+  (* index lookup, file sorted by time *)
+  Theorem C16_lookup_index_sorted_first_not_before (all : list M) (s : sctx M) idx :
+    inv all s ->
+    match lookup_index_sorted index_of all s idx with
+    | Some p =>
+        exists ai m, nthN all ai = Some m /\ index_of m = idx /\
+          (forall j m', j < ai -> nthN all j = Some m' -> index_of m' <> idx) /\
+          p <= stream_len s (len all) /\
+          (forall q a, q < p -> all_pos all s q = Some a -> a < ai) /\
+          (forall q a, p <= q -> all_pos all s q = Some a -> ai <= a)
+    | None => forall j m, nthN all j = Some m -> index_of m <> idx
+    end.
+  Proof. intros Hi. exact (lookup_index_sorted_first_not_before index_of all s Hi idx). Qed.
 End Statements.
 
-(* non-vacuity: a schedule with three batches, chunk sizes 1, 2 and 100, on a query with window end 2 *)
+(* ---------------------------------------------------------------- the code before the repairs did not have the property *)
+Theorem C16_before_fix_search_skipped_a_position :
+  stream_search_prefix d_all d_filtered 0 1 d_fs = Ok ([0], Some 2) /\
+  stream_search_prefix d_all d_filtered 2 1 d_fs = Ok ([2], Some 4) /\
+  stream_search_prefix d_all d_filtered 4 1 d_fs = Ok ([], None) /\
+  hits d_all d_filtered d_fs 0 4 = [0; 1; 2; 3].
+Proof. exact search_prefix_skipped_a_position. Qed.
+Theorem C16_before_fix_search_found_nothing_without_filters :
+  stream_search_prefix d_all d_unfiltered 0 100 d_fs = Ok ([], None) /\
+  hits d_all d_unfiltered d_fs 0 4 = [0; 1; 2; 3].
+Proof. exact search_prefix_found_nothing_without_filters. Qed.
+Theorem C16_before_fix_lookup_time_returned_last_of_equal :
+  lookup_time_prefix fst t_all t_s 2 = 3 /\ lookup_time fst t_all t_s 2 = 1.
+Proof. exact lookup_time_prefix_returned_last_of_equal. Qed.
+Theorem C16_before_fix_lookup_index_unfiltered_returned_0 :
+  lookup_index_prefix snd t_all t_s 3 = Some 0 /\ lookup_index snd t_all t_s 3 = Some 3.
+Proof. exact lookup_index_prefix_unfiltered_returned_0. Qed.
+Theorem C16_before_fix_lookup_index_sorted_returned_last_of_equal :
+  lookup_index_sorted_prefix fst snd t_all t_sf 1 = Some 2 /\ lookup_index_sorted snd t_all t_sf 1 = Some 0.
+Proof. exact lookup_index_sorted_prefix_returned_last_of_equal. Qed.
+(* a query on a log that is still being parsed: a tick without new messages ended it (before the repair) *)
+Theorem C16_before_fix_query_ended_while_parsing :
+  let s := new_ctx 1 false true (cfset [(0, 1, 1)]) 0 5 in
+  query_done_prefix false 0 s = true /\ done_cond false 0 s = false.
+Proof. split; vm_compute; reflexivity. Qed.
+
+(* ---------------------------------------------------------------- non-vacuity *)
+(* a schedule with three batches, chunk sizes 1, 2 and 100, on a query with window end 2 *)
 Example C16_nonvacuous_index :
   let fs := cfset [(0, 1, 1)] in
   let log := expand [(1, 1, 0); (2, 1, 1); (1, 1, 0); (2, 1, 1)] in
@@ -59,6 +221,44 @@ Proof.
   - intros e H. cbn in H. repeat (destruct H as [H|H]; [discriminate|]). contradiction.
 Qed.
 
+(* a history with two arrival batches, a filtered stream, a window change and a query: what is delivered *)
+Example C16_nonvacuous_session :
+  let log := expand [(2, 1, 0); (3, 1, 1); (1, 1, 0); (2, 1, 1)] in
+  let ops := [ONew true true (cfset [(0, 1, 1)]) 1 3; OTick (firstN 4 log) false; OWindow 1 0 10;
+              OTick (skipN 4 log) false; ONew false true (cfset [(0, 1, 0)]) 0 2; OTick [] true] in
+  exists sv evs, c_run false (server0 1) ops = Ok (sv, evs) /\
+    map c_index (delivered 1 evs) = [3] /\                (* the old id: position 1 only, then renewed *)
+    map c_index (delivered 2 evs) = [2; 3; 4; 6; 7] /\    (* the new id: the whole window *)
+    map c_index (delivered 3 evs) = [0; 1] /\ end_markers 3 evs = 1 /\
+    length (sv_streams sv) = 1%nat.
+Proof.
+  cbv zeta. eexists _, _. split; [vm_compute; reflexivity|]. repeat split; vm_compute; reflexivity.
+Qed.
+
+Example C16_nonvacuous_pages :
+  let log := expand [(2, 1, 0); (3, 1, 1); (1, 1, 0); (2, 1, 1)] in
+  let s := set_progress (new_ctx 1 true true (cfset []) 0 10) [] 8 in
+  search_pages 9 log s 1 2 (cfset [(0, 1, 1)]) = Ok [([2; 3], (1, 4)); ([4; 6], (4, 7)); ([7], (7, 8))].
+Proof. vm_compute. reflexivity. Qed.
+
 Print Assumptions C16_filtered_batch_independent.
 Print Assumptions C16_all_processed_after_enough_calls.
+Print Assumptions C16_window_delivered.
+Print Assumptions C16_query_end_only_when_complete.
+Print Assumptions C16_window_prefix_always.
+Print Assumptions C16_ids_announced_first.
+Print Assumptions C16_search_pages_partition.
+Print Assumptions C16_std_bsearch_meets_contract.
+Print Assumptions C16_stream_pos_first_not_before.
+Print Assumptions C16_lookup_first_not_before.
+Print Assumptions C16_lookup_index_first_not_before.
+Print Assumptions C16_lookup_index_sorted_first_not_before.
+Print Assumptions C16_before_fix_search_skipped_a_position.
+Print Assumptions C16_before_fix_search_found_nothing_without_filters.
+Print Assumptions C16_before_fix_lookup_time_returned_last_of_equal.
+Print Assumptions C16_before_fix_lookup_index_unfiltered_returned_0.
+Print Assumptions C16_before_fix_lookup_index_sorted_returned_last_of_equal.
+Print Assumptions C16_before_fix_query_ended_while_parsing.
 Print Assumptions C16_nonvacuous_index.
+Print Assumptions C16_nonvacuous_session.
+Print Assumptions C16_nonvacuous_pages.
